@@ -63,6 +63,8 @@ func funcDecl(f *ast.File, name string) *ast.FuncDecl {
 
 func main() {
 	repo, out := os.Args[1], os.Args[2]
+	// the decision kernels, translated to Lean next to the facts file (kernels.go)
+	writeKernels(repo, filepath.Dir(out))
 	var b strings.Builder
 	b.WriteString("/-\n  Dirk.Gen.Facts — REGENERATED on every run by /verif/factx from /repo's current source. Do not edit.\n-/\nnamespace Dirk.Gen\n\n")
 
